@@ -184,6 +184,67 @@ def text_options(ctx, opts):
     return ctx.done(ok, ctx.observe(b))
 
 
+def flattened(ctx, shape, group, via):
+    """an array with a grouped axis (result of flatten): its tuple labels, written as lists of lists, come back as the same
+    tuples in the same order"""
+    import json
+    nd = len(shape)
+    dims = DIMS[:nd]
+    lkinds = ['i', 'U', 'f'][:nd]
+    labels = [ctx.labels(k, n, 'l%s_' % d) for d, n, k in zip(dims, shape, lkinds)]
+    ncell = 1
+    for n in shape:
+        ncell *= n
+    cells = ctx.cells('f', ncell, 'v')
+    a = ctx.mk(dims, labels, cells, lkinds=lkinds, register=False)
+    f = a.flatten() if group is None else a.flatten([dims[i] for i in group])
+    fdims = tuple(f.dims)
+    flabels = [ax.values.tolist() for ax in f.axes]
+    fvals = ctx.flat(f.values.tolist())
+    saved = (json.dumps, json.loads)
+    if ctx.sym:
+        ch = _Channel(ctx.symx)
+        json.dumps, json.loads = ch.dumps, ch.loads
+    try:
+        if via == 'json':
+            r = ctx.call(lambda: ctx.da.DimArray.from_json(f.to_json()))
+        else:
+            r = ctx.call(lambda: ctx.da.DimArray.from_jsondict(f.to_jsondict()))
+    finally:
+        json.dumps, json.loads = saved
+    if r[0] != 'ok':
+        return ctx.done(False, r[1], inplace=True)
+    b = r[1]
+    if tuple(b.dims) != fdims or tuple(b.values.shape) != tuple(f.values.shape):
+        return ctx.done(False, ctx.observe(b), inplace=True)
+    oks = [ctx.eqlist(ctx.flat(b.values.tolist()), fvals)]
+    for ax, exp in zip(b.axes, flabels):
+        got = ax.values.tolist()
+        oks.append(len(got) == len(exp))
+        for g, e in zip(got, exp):
+            if isinstance(e, (tuple, list)):
+                oks.append(isinstance(g, (tuple, list)) and len(g) == len(e) and ctx.AND(*[ctx.eq(x, y) for x, y in zip(g, e)]))
+            else:
+                oks.append(ctx.eq(g, e))
+    return ctx.done(ctx.AND(*oks), ctx.observe(b), inplace=True)
+
+
+def bytes_input(ctx, ensure_ascii):
+    """from_json accepts the UTF-8 encoded text as well (decided by its real-stack replay: the symbolic run uses the channel stub)"""
+    labels = [['Z\u00fcrich', 'K\u00f8benhavn'], [10, 20]]
+    vals = ['\u00e9t\u00e9', 'a', '\u65e5\u672c', '']
+    a = ctx.mk(['ville', 'n'], labels, vals, lkinds=['U', 'i'], kind='O', attrs={'note': 'caf\u00e9', 'tags': ['\u00fc', 'c']})
+    def f():
+        s = a.to_json(ensure_ascii=ensure_ascii)
+        return ctx.da.DimArray.from_json(s.encode('utf-8') if isinstance(s, str) and not s.startswith('JSON#') else s)
+    r = ctx.call(f)
+    if r[0] != 'ok':
+        return ctx.done(False, r[1])
+    b = r[1]
+    ok = ctx.AND(same(ctx, b, Ref(['ville', 'n'], labels, vals)), b.attrs.get('note') == 'caf\u00e9', b.attrs.get('tags') == ['\u00fc', 'c'])
+    return ctx.done(ok, ctx.observe(b))
+
+
 def templates():
     ts = []
 
@@ -205,6 +266,12 @@ def templates():
     # dimension names that are also names of class members
     for dims in (['values', 'x'], ['T', 'size'], ['mean', 'axes'], ['dims', 'labels'], ['item', 'loc']):
         add('rt-dims-%s' % '-'.join(dims), 'roundtrip', cost=0.2, shape=[2, 2], lkinds=['i', 'i'], dims=dims, nan=False)
+    for shape, group in (([1, 2], None), ([2, 1], None), ([2, 2], None), ([2, 3], None), ([1, 3, 1], None), ([2, 2, 2], [0, 2]), ([2, 3, 2], [2, 1]), ([1, 1], None), ([3, 3, 3], None)):
+        for via in ('json', 'jsondict'):
+            add('flattened-%s-%s-%s' % ('x'.join(map(str, shape)), 'all' if group is None else ''.join(map(str, group)), via), 'flattened',
+                'quick' if shape != [3, 3, 3] else 'thorough', cost=0.5, shape=shape, group=group, via=via)
+    for ea in (True, False):
+        add('bytes-input-%s' % ea, 'bytes_input', cost=0.1, ensure_ascii=ea)
     add('jsondict-shape', 'jsondict_shape', cost=0.2)
     for via in ('json', 'jsondict'):
         add('special-values-%s' % via, 'special_values', cost=0.2, via=via)
